@@ -167,6 +167,28 @@ func execCases(cases [][]string, nworkers int) [][]string {
 					if !alive {
 						w = nil
 					}
+					if strings.HasPrefix(op, "pbatch ") && strings.HasPrefix(obs, "X ") {
+						// the process died / hung somewhere in the batch: redo its strings one by one so that
+						// the failing input is named
+						for _, e := range strings.Fields(op)[2:] {
+							for _, k := range []string{"prog", "fmt", "lambda"} {
+								sop := normalizeOp("parse " + k + " " + e)
+								if w == nil {
+									var err error
+									if w, err = startWorker(); err != nil {
+										fmt.Fprintln(os.Stderr, "c05: cannot start worker:", err)
+										os.Exit(3)
+									}
+								}
+								o, al := w.ask(sop)
+								if !al {
+									w = nil
+								}
+								res = append(res, sop+" => "+o)
+							}
+						}
+						continue
+					}
 					res = append(res, op+" => "+obs)
 				}
 				out[i] = res
@@ -196,6 +218,16 @@ func normalizeOp(op string) string {
 		if len(t) >= 2 {
 			s, _ := kit.Unesc(t[1])
 			return "lex " + t[1] + " " + clsTable(s)
+		}
+	case "pbatch":
+		if len(t) >= 3 {
+			var all strings.Builder
+			for _, e := range t[2:] {
+				s, _ := kit.Unesc(e)
+				all.WriteString(s)
+				all.WriteByte(' ')
+			}
+			return "pbatch " + clsTable(all.String()) + " " + strings.Join(t[2:], " ")
 		}
 	case "parse":
 		if len(t) >= 3 {
